@@ -60,7 +60,7 @@ def main():
         na.append({"property_id": p, "reason": NA.get(p, "check not built yet: not claimed in this revision (see DESIGN.md build order)")})
     man = {
         "version": 1,
-        "setup_cmd": "/venv/bin/python -c \"import hypothesis\" 2>/dev/null || /venv/bin/pip install --no-index --find-links /opt/veriftools/wheels hypothesis; /venv/bin/python -m compileall -q simkit substrate netharn checks >/dev/null; true",
+        "setup_cmd": "/venv/bin/python -c \"import hypothesis\" 2>/dev/null || /venv/bin/pip install --no-index --find-links /opt/veriftools/wheels hypothesis; /venv/bin/python -m compileall -q simkit substrate netharn flosim logsim checks >/dev/null; true",
         "hooks": {"guard": "IOFLO_VERIF", "enable": "no hooks: every seam is a module attribute, constructor parameter or object wrapper (DESIGN.md §2.2)",
                   "baseline_off_cmd": "cd /repo && /venv/bin/python -m pytest -ra -q -p no:cacheprovider --timeout=900 --continue-on-collection-errors",
                   "source_commits": [], "add_only": True},
